@@ -207,27 +207,29 @@ class C09(Check):
                   "live announced connection with that datapath id; the entry is exactly the most recently registered connection if still live; sendToDPID "
                   "reaches exactly it), registry_exact_no_overlap (literal exactness when connections of one datapath never overlap), early_ps (the announcing "
                   "step raises exactly the port-status received since the last features reply, in order, once each; none before), close_only_when_lost. "
-                  "The theorems are about the model of the code WITH fixes D03, C09-1, C09-2, C09-3; *_defect theorems give the witnesses on the model of the "
-                  "unrepaired code and for the two statements that remain false (known findings C09-4, C09-5).")
+                  "The theorems are about `Cfg.rv v` for BOTH values of v: the code with the committed fixes D03, C09-1, C09-2, C09-3, without (v = false, /repo as it stands) or with "
+                  "(v = true) the proposed fix C09-5; the harness reads v off the source. *_defect theorems give the witnesses on the model of the unrepaired code and for the "
+                  "statements that remain false (findings C09-4, C09-5 at v = false, C09-6 in the listener model).")
     level_note = ("Trusted: Lean kernel, axioms propext/Classical.choice/Quot.sound, the hand-written model Model/Conn.lean (tied to the code only by this "
                   "correspondence run), the harness (scripted sockets, fake listener, recording listeners, unpacker wrapper). Assumed, not proved: event listeners "
                   "do not re-enter the connection (no halt, no disconnect/send from inside a handler); default OpenFlowConnectionArbiter; xid counter does not wrap; "
                   "every ofp_error carries data; framing (C02) and the deferred sender (C20) are out of scope.")
-    trusted_base = ["model Model/Conn.lean hand-written from of_01.py / openflow/__init__.py; tied by this correspondence run",
+    trusted_base = ["harness/c09.py detect_variant: which of the proposed repairs C09-5 / C09-6 the tree has is read off the statement text of two functions (unknown shape = error); the driver evaluates the model at that variant and the correspondence validates the choice",
+                    "model Model/Conn.lean (+ Model/ConnL.lean for re-entrant listeners) hand-written from of_01.py / openflow/__init__.py; tied by this correspondence run",
                     "harness: real OpenFlow_01_Task.run generator driven by hand (fake listener socket, scripted connection sockets), recording listeners, `_connect` wrapper"]
-    assumptions = ["THEOREMS: listeners of the lifecycle events do not re-enter the connection (no halt / disconnect / send inside a handler). TESTED beyond that "
-                   "(oracle only, no model): nexus-level ConnectionUp listeners that send on the connection or call sendToDPID, ConnectionDown listeners that call "
-                   "sendToDPID(event.dpid); a ConnectionUp listener that disconnects the connection breaks the event order (proposed known finding C09-6; those "
-                   "cases run once the finding is registered)",
+    assumptions = ["THEOREMS: listeners of the lifecycle events do not re-enter the connection (no halt / disconnect / send inside a handler). Beyond that, TESTED and "
+                   "MODEL-COMPARED but not proved (Model/ConnL.lean `runL`, which provably equals the verified model when there are no such listeners: listeners_none_is_model): "
+                   "nexus-level ConnectionUp listeners that send on the connection, call sendToDPID or disconnect the connection; ConnectionDown listeners that call "
+                   "sendToDPID(event.dpid)",
                    "the default OpenFlowConnectionArbiter (nexus = core.openflow); miss_send_len and clear_flows_on_connect at their defaults",
                    "fewer than 2^31 xids drawn per run; every ofp_error message carries data; a read() delivers whole messages (framing is C02)",
-                   "registry_exact assumes each connection's features replies name one datapath id (otherwise: known finding C09-5)"]
+                   "registry_exact on the tree as it stands (variant v = false) assumes each connection's features replies name one datapath id (otherwise: finding C09-5); with fixes/C09-5 applied (v = true, read off the source by detect_variant) it is unconditional"]
     rule = ("case = history of {connect, recv(c, batch of messages), lose(c, eof|select-error), disc(c), sockfail(c), sendto(d)} over <= 4 connections, "
             "datapath ids {5,6,7} and the edge ids {0, 1, 2^63, 2^64-1} (every hand-written, loss-point and 2-connection history is repeated with them, half of the generated ones use them); corpus = 19 hand-written histories (D3, orphan, dpid change, wrong xid, send errors...), loss at each of 6 points of the handshake "
             "x {eof, select error, disconnect(), send error} x {alone, beside a live connection of the same datapath} x 2 batchings, every interleaving of the 4 handshake "
             "messages (both finishing variants) with <= 2 insertions of {port_status, echo_request, packet_in, error(other xid), error(other code)}, all 24 orders of the 4 "
             "handshake messages with <= 1 insertion, every connect/up/lose order of 2 connections; generated = sampled 3-insertion interleavings and 3-connection orders "
-            "(exhaustive in the thorough tier) + seeded random histories; + ~690 of the hand-written / loss-point / 2-connection histories re-run with re-entrant application listeners (oracle only); non-trivial = at least one message was dispatched")
+            "(exhaustive in the thorough tier) + seeded random histories; + ~690 of the hand-written / loss-point / 2-connection histories re-run with re-entrant application listeners (7 listener behaviours; compared with the listener model runL); non-trivial = at least one message was dispatched")
 
     def setup(self):
         self.core = poxenv.boot()
@@ -603,7 +605,7 @@ class C09(Check):
 
     def listener_cases(self):
         """histories run with application listeners that re-enter the controller from inside ConnectionUp / ConnectionDown
-        (oracle only: the model and the theorems assume listeners that do not re-enter)"""
+        (compared with the listener model `runL` of Model/ConnL.lean; the theorems assume listeners that do not re-enter)"""
         base = list(self.specials()) + list(self.orders(2, [(5, 5), (5, 6)], [("eof", "err"), ("senderr", "disc")])) + list(self.loss_points())[::5]
         variants = list(self.LISTENERS) + [{"up": "disc"}, {"up": "disc", "down": "sendto"}]
         for j, c in enumerate(base):
